@@ -9,6 +9,7 @@ CONSTANTS
   SignalHead = TRUE
   BcastAfterBg = TRUE
   Resched = TRUE
+  ScheduleAtOpen = TRUE
 INVARIANT PublishedInserted
 INVARIANT OneLeader
 INVARIANT SeqContiguous
